@@ -16,7 +16,7 @@ use simcore::{Fnv, Outcome, Rng};
 
 use super::pty::{run_child, ChildRun, Spec};
 use super::vt::{Frame as Screen, Vt};
-use super::{exe, parse_log, panic_location, LogEv};
+use super::{exe, parse_log, LogEv};
 
 pub const RX: (f64, f64) = (35.0, -80.0);
 
@@ -725,7 +725,7 @@ pub struct Parsed {
 
 pub fn end_of_run_checks(prop: &str, p: &Parsed, out: &mut Outcome, expect_exit_ok: bool) {
     let r = &p.run;
-    if let Some(loc) = panic_location(&r.stderr) {
+    if let Some(loc) = super::main_panic_location(&r.stderr) {
         out.violate(format!("{prop}:client-panicked:{loc}"), format!("the client panicked (exit status {:?})\nstderr:\n{}", r.code, r.stderr.lines().take(8).collect::<Vec<_>>().join("\n")));
         return;
     }
